@@ -116,7 +116,7 @@ func runC03(c *Ctx) error {
 	c.AddStat("sequential_histories", len(jobs))
 
 	// ---- (2) concurrent histories
-	nconc := c.Pick(150, 3000)
+	nconc := c.Pick(150, 20000)
 	gsizes := []int{2, 2, 3, 3, 4, 4, 6, 8}
 	conc := make([]*tr.Run, 0, nconc)
 	type cj struct {
